@@ -54,7 +54,7 @@ def s_link(draw, min_slots=2, max_slots=200, kinds=("random", "random", "prbs7",
             "r": draw(st.floats(0.1, 1.0)), "R_load": draw(st.floats(10, 1000)), "bw": draw(st.floats(0, 1)), "elem": elem,
             "disp": draw(st.floats(-1, 1)), "L": draw(st.floats(1, 100)), "alpha": draw(st.floats(0, 0.3)),
             "pdmode": draw(st.sampled_from(["ase-only", "thermal-only"])), "drive_bias_in_dac": draw(st.booleans()),
-            "gvN": draw(st.sampled_from([None, None, "match", "other"]))}      # slot count configured in gv: none / that of the record / another one
+            "gvN": draw(st.sampled_from([None, None, "match", "other"])), "drive": draw(st.sampled_from(["unipolar", "negative", "pushpull"]))}      # slot count configured in gv: none / that of the record / another one
 
 
 def run_link(c, slots, carrier=None, pol=None, keep=None):
@@ -68,9 +68,13 @@ def run_link(c, slots, carrier=None, pol=None, keep=None):
     fs = R * sps
     Vpi = c["Vpi"]
     kw = {}
-    if c["drive_bias_in_dac"]:
+    drive = c.get("drive") or ("negative" if c["drive_bias_in_dac"] else "unipolar")
+    if drive == "negative":
         v = lib(D.DAC, slots, -Vpi, Vpi, c["shape"])      # bit 1 -> 0 V (maximum transmission), bit 0 -> -Vpi
         mz_bias = 0.0
+    elif drive == "pushpull":
+        v = lib(D.DAC, slots, -Vpi / 2, Vpi, c["shape"])  # bit 1 -> +Vpi/2, bit 0 -> -Vpi/2 around a bias of -Vpi/2
+        mz_bias = -Vpi / 2
     else:
         v = lib(D.DAC, slots, 0.0, Vpi, c["shape"])
         mz_bias = -Vpi
